@@ -186,9 +186,8 @@ theorem okPiece_of_ctxP (d : Backend) (inl : Bool) (pw pw' : Bool) (k : HK) (nxt
     | inr h => right; exact notQ_of_refines k nxt hr h
   | raw t =>
     simp only [ctxP, Bool.or_eq_true] at hx
-    simp only [contentOK, Bool.and_eq_true, Bool.not_eq_true', List.all_eq_true] at hc
-    have hpl : t.all (plainChar d) = true := by
-      simp only [List.all_eq_true]; intro c hcm; exact digit_plain d c (hc.2 c hcm)
+    simp only [contentOK, Bool.and_eq_true] at hc
+    have hpl : t.all (plainChar d) = true := hc.2
     simp only [okPiece, hpl, Bool.true_and, plainFollow]
     cases hx with
     | inl h => have : t.getLast? ≠ some 'E' := by simpa [notE] using h
